@@ -223,6 +223,7 @@ EnvStep ==
     /\ UNCHANGED <<snap, ghost>>
 
 SrcsOf(a) == a.srcs
+SamePar(p1, p2) == \A i \in 1..Len(p1) : p1[i] = p2[i] \/ {p1[i], p2[i]} \subseteq {"none", "empty"}
 
 SyncStep ==
     /\ IsEvent("Sync")
@@ -248,7 +249,10 @@ SyncStep ==
           /\ ghost' = [d \in D |-> [n \in DOMAIN newc.cf[d] |->
                           IF n \in Fresh(L0, fs, d) /\ n \in DOMAIN fs[d] THEN fs[d][n].b
                           ELSE IF n \in DOMAIN ghost[d] THEN ghost[d][n] ELSE <<>>]]
-          /\ pviol' = IF "fs1" \in DOMAIN Ev THEN <<>> ELSE C12_Frame("Sync", Ev.state)
+          /\ pviol' = (IF "fs1" \in DOMAIN Ev THEN <<>> ELSE C12_Frame("Sync", Ev.state)) \o
+                      (IF r.out.exit = "refused" /\ (Ev.out.rc = 0 \/ Ev.state.sha.c # sha.c \/ ~SamePar(Ev.state.sha.p, sha.p))
+                       THEN <<<<"C14", "interlock-did-not-hold", [rc |-> Ev.out.rc, before |-> sha, after |-> Ev.state.sha]>>>> ELSE <<>>) \o
+                      (IF "expect_refused" \in DOMAIN a /\ r.out.exit # "refused" THEN <<<<"C14", "model-does-not-refuse", a.flags>>>> ELSE <<>>)
           /\ afterfix' = FALSE
 
 (* a sync that was killed (SIGKILL at some system call): the content copy that loads is the old state, the
@@ -361,6 +365,17 @@ FaultStep ==
           /\ afterfix' = FALSE
           /\ UNCHANGED snap
 
+(* C14: a command that must be refused (configuration guards, lock): failing status, nothing changed.  A missing and an
+   empty parity file are the same abstract value (a refused sync may create the empty file). *)
+RefusedStep ==
+    /\ IsEvent("Refused")
+    /\ Follow(Ev.state, par)
+    /\ diag' = IF LoggedC(Ev.state) = C THEN <<>> ELSE <<"Refused changed content", l>>
+    /\ pviol' = (IF Ev.out.rc = 0 THEN <<<<"C14", "not-refused:" \o Ev.args.trigger, Ev.args>>>> ELSE <<>>) \o
+                (IF Ev.state.sha.c # sha.c \/ ~SamePar(Ev.state.sha.p, sha.p) \/ Ev.state.sha.f # sha.f
+                 THEN <<<<"C14", "refused-but-changed:" \o Ev.args.trigger, <<sha, Ev.state.sha>>>>>> ELSE <<>>)
+    /\ UNCHANGED <<clean, snap, dmg, ghost, afterfix>>
+
 (* a fix that was killed: content files untouched; data and parity are in some intermediate state from which
    the next fix is validated as usual *)
 FixKilledStep ==
@@ -406,12 +421,12 @@ ResetStep ==
     /\ diag' = <<>>
     /\ clean' = FALSE
     /\ snap' = Ev.state.fs
-    /\ dmg' = FALSE
+    /\ dmg' = ("dmg" \in DOMAIN Ev /\ Ev.dmg)       \* e.g. the state in the middle of a stopped command
     /\ ghost' = [d \in D |-> <<>>]
     /\ pviol' = <<>>
     /\ afterfix' = FALSE
 
-Next == EnvStep \/ SyncStep \/ SyncKilledStep \/ FixKilledStep \/ FaultStep \/ CheckStep \/ FixStep \/ ScrubStep \/ DiffStep \/ ResetStep
+Next == EnvStep \/ RefusedStep \/ SyncStep \/ SyncKilledStep \/ FixKilledStep \/ FaultStep \/ CheckStep \/ FixStep \/ ScrubStep \/ DiffStep \/ ResetStep
 Spec == Init /\ [][Next]_vars
 
 (* ---- what TLC checks ---- *)
